@@ -17,14 +17,17 @@ RULE = ("grammar-directed files per format (BED3/6/12, bedGraph, narrowPeak, chr
         "LF/CRLF x {final line terminated, unterminated, ended by a bare LF}, FORMAT sub-fields dropped per sample, floats "
         "without leading zero mixed with '.' missing, header/comment lines; two-file HISTORY cases in one process (same INFO "
         "IDs with other Type/Number, same header with another buffer flavour, same column names with other declared types; both "
-        "orders); exhaustive width vectors {1,2,3,9}^(rows x 3 cols) for BED3 and chrom.sizes. "
+        "orders); delimited tables with a column-name header line; GTF / GFF3 attribute lookups (gene_id, transcript_id, exon_number, "
+        "... per feature type; keys that are the tail of a longer key, quoted values containing ';' / '=' / spaces, rows without the "
+        "key); buffer-level row selection (masks, index lists, slices, empty selections) and np.concatenate of buffers before "
+        "get_data; integers of up to 19 digits; exhaustive width vectors {1,2,3,9}^(rows x 3 cols) for BED3 and chrom.sizes. "
         "Non-trivial = >= 2 rows with unequal widths in some column, or a sign / '.' / CRLF / comment line present")
 EXHAUSTIVE = {"quick": False, "thorough": False}
 MODEL_OPS = {"parse", "parse_x", "attrs"}   # "parse_x" (corpus): VCF flavours with typed INFO / genotype columns, same handling
 PARALLEL = 16
 ASSUMPTIONS = [
     "NumPy flatnonzero/reshape/fancy indexing and npstructures RaggedView slicing have their list-level meaning (modelled as positions/slices)",
-    "files end with a newline (the missing-final-newline and chunked paths belong to C01)",
+    "files end with a newline except in the final-line variants generated here (last line unterminated, or ended by a bare LF in a CRLF file); chunked reading belongs to C01",
     "float columns: the value is compared with Python float(text) to relative 1e-12 (C18 owns the float conversion); the Lean model keeps float cells as text",
     "VCF INFO header parsing (vcf_header.parse_header) and INFO/genotype extraction are corresponded against the reference parser, only the key lookup / triplet code logic is modelled",
 ]
@@ -34,20 +37,31 @@ MANIFEST = {
     "text": "Lean 4 model of the delimiter/field-offset table (incl. the column-count validation), CR adjustment, right-aligned "
             "zero-filled digit matrix, right-padded identifier matrix, signed/optional ints, list columns, k-line roles, wrapped-FASTA "
             "seq_lens arithmetic, SAM rest-of-line column, VCF POS-1, typed INFO key lookup, genotype triplet codes, interior-comment "
-            "removal. Unbounded theorems: parse_delimited (for every schema of the modelled column types and every LF or uniformly "
-            "CRLF file with one field per column: offset table + CR rule + typed extraction = reference parser, one entry per line), "
+            "removal. Unbounded theorems: parse_delimited (for every schema of the modelled column types and every LF file, or CRLF "
+            "file whose last line may lack its CR, with one field per column: offset table + CR rule + typed extraction = reference parser, one entry per line), "
             "fieldTable_spec, digitMatrix_value (row independence), intColumn_spec (both code paths), typedColumn_spec, idColumn_spec, "
             "listColumn_spec, optIntColumn_spec, crAdjust_crlf, kline_roles, fasta_wrapped_join (records with any number of lines, none "
             "included), commentTable_spec (comment lines anywhere, with or without TABs, never become entries), sam_extra / "
             "sam_rows_spec (whole buffer: first 11 fields + rest of line = remaining fields joined by TAB), "
-            "info_subfields_spec / info_lookup_partial, genotype_triplets (all 32 genotypes, int8 wrap included), fasta_seqLens, vcf_pos; "
-            "refutations of the four shipped rules that were repaired. Per-format schemas, comment characters, k-line layout and "
+            "info_subfields_spec / info_lookup_partial / infoLookup_none_iff (fails exactly on a duplicated key), genotype_triplets (all 32 "
+            "genotypes, int8 wrap included), fasta_seqLens, vcf_pos; characterisations in plain List/Nat terms: delimsFrom_mem_iff / "
+            "delimsFrom_sorted (the delimiter array is exactly the increasing list of delimiter positions), splitOn_length, "
+            "linesOf_length, chunkF_flatten_take (reshape only regroups), fieldTable_ok_iff (the table is built exactly for buffers whose "
+            "lines all have the first line's field count), signedRow_eq_specInt (str_to_int = the standard signed reading on every "
+            "non-empty text, rejections included; signedRow_empty pins the one difference), digitMatrixValues_ok_iff (accepted exactly when "
+            "all bytes are digits), kline_roles_any (no whole-number-of-records hypothesis), crAdjust_crmode; GTF attribute scan: "
+            "gtfScan_value / gtfScan_skip / gtfKeySuffix_example; refutations of the five shipped rules that were repaired (splitRowsOld, "
+            "optIntColumnOld, commentTableOld, seqLensOld, gtfKeyOld). Per-format schemas, comment characters, k-line layout and "
             "coordinate shifts are re-extracted from the running package into Gen/C02.lean every run and checked against the "
             "documented formats by decide. Correspondence: real parser vs Lean model vs Lean spec vs pure-Python reference parser on "
-            "grammar-generated files of 16 formats and 6 VCF buffer flavours (typed INFO and genotype columns now also in the model).",
+            "grammar-generated files of 16 formats and 6 VCF buffer flavours (typed INFO and genotype columns, attribute lookups and row selections also in the model).",
     "note": "floats are compared by value to 1e-12 (conversion itself is C18) and stay text in the Lean model; the header-type "
             "dispatch of INFO keys and the flat-buffer index arithmetic of NamedBufferExtractor are corresponded (info_lookup_partial "
-            "names the gap); files always end with a newline (C01 covers the rest). Nine defects found and fixed (known_findings.json).",
+            "names the gap); chunked reading is C01's. Record markers, line offsets and interior-comment tolerance in Gen/C02.lean are observed on public behaviour "
+            "(from_data / from_raw_buffer(...).get_data()), no private attribute of the package is read. GTF/GFF3 attribute lookup is "
+            "modelled (gtfScan / gffAttr, op attrs); buffer row selection is modelled as pickRows before the typed extraction; "
+            "np.concatenate of buffers and the column-name-header tables are implementation-vs-reference only. "
+            "Eleven defects found and fixed (known_findings.json).",
     "technique": "Lean 4 proof over an executable model + schemas regenerated from source (decide) + differential correspondence with the implementation",
     "design": "§6 C02",
 }
